@@ -101,7 +101,7 @@ def checkTransition (st : St) (pre : Dump) (c : Call) (post : Dump) : IO St := d
     st ← emit st "CORRD" c.name "dirty"
   -- executable property predicates on the implementation's own transition
   let post' := post.toScreen
-  for (prop, what) in propFailures env s0 c post' do
+  for (prop, what) in propFailures env (modeCands pre post c) s0 c post' do
     st ← emit st s!"PROP-{prop}" c.name what
   -- display
   if c == Call.display then
